@@ -54,35 +54,52 @@ def gen_cases(tier):
     for d in DEC:
         cases.append({"kind": "list", "args": [d], "input": d})
         cases.append({"kind": "list", "args": [d], "input": f" {d}"})
-    # --- lists with a negative number must be rejected
+    # --- inputs with a negative number must be rejected (also tiny negatives, in every syntax)
+    NEG = ["-0.1", "-1", "-0.05", "-1e-9", "-1e-8", "-1e-12", "-2.5e-7", "-1e-300"]
     for k in (1, 2, 3):
         for combo in itertools.combinations(["0.1", "0.3", "1"], k - 1):
-            for neg in ("-0.1", "-1", "-0.05"):
+            for neg in NEG:
                 items = list(combo) + [neg]
-                for perm in set(itertools.permutations(items)):
+                for perm in sorted(set(itertools.permutations(items))):
                     cases.append({"kind": "negative", "args": list(perm), "input": "[" + ", ".join(perm) + "]"})
+    for neg in NEG:
+        cases.append({"kind": "negative", "args": [neg], "input": neg})
+        cases.append({"kind": "negative", "args": [neg, "1", "5"], "input": f"linspace({neg}, 1, 5)"})
+        cases.append({"kind": "negative", "args": [neg, "3"], "input": f"range({neg}, 3)"})
+        cases.append({"kind": "negative", "args": [neg, "1", "0.25"], "input": f"arange({neg}, 1, 0.25)"})
     # --- linspace
     lm = ["0.1", "0.2", "0.5", "1.5"]
     for a, b in itertools.combinations(lm, 2):
-        for n in (None, 2, 3, 5, 10):
+        for n in (None, 1, 2, 3, 4, 5, 7, 10):
             args = [a, b] + ([] if n is None else [str(n)])
             for s in ws_variants("(", args, ")", prefix="linspace"):
                 cases.append({"kind": "linspace", "args": args, "input": s})
             cases.append({"kind": "linspace", "args": args, "input": "np.linspace(" + ", ".join(args) + ")"})
-    # --- range / arange
-    starts, stops, steps = ["0", "0.5", "1"], ["0.9", "1.3", "2", "3"], ["0.1", "0.2", "0.25", "0.3", "0.4", "0.5", "1"]
+    # --- range / arange: one, two and three arguments over a grid of tenths (float end-point rounding lives here)
+    def tenths(lo, hi):
+        return [str(F(i, 10)) if i % 10 else str(i // 10) for i in range(lo, hi + 1)]
+    def dec(x):
+        return str(float(F(x))) if "/" in x else x
     for name in ("range", "arange"):
-        for b in stops + ["4", "1"]:
+        for b in [dec(x) for x in tenths(1, 60)]:
             cases.append({"kind": "range", "args": [b], "input": f"{name}({b})"})
-        for a in starts:
-            for b in stops:
-                if fr(a) < fr(b):
-                    cases.append({"kind": "range", "args": [a, b], "input": f"{name}({a}, {b})"})
-                    for st in steps:
-                        args = [a, b, st]
-                        strs = ws_variants("(", args, ")", prefix=name) if name == "range" else [f"{name}({a}, {b}, {st})"]
-                        for s in strs:
-                            cases.append({"kind": "range", "args": args, "input": s})
+        for ai in range(0, 41):
+            a = dec(tenths(ai, ai)[0])
+            for bi in range(ai + 1, min(ai + 50, 90) + 1):
+                b = dec(tenths(bi, bi)[0])
+                if name == "arange" and (ai + bi) % 3:
+                    continue
+                cases.append({"kind": "range", "args": [a, b], "input": f"{name}({a}, {b})"})
+        for a in ["0", "0.1", "0.2", "0.3", "0.5", "1", "1.2", "2.4"]:
+            for bi in range(1, 31):
+                b = dec(str(F(a) + F(bi, 10)))
+                for st in ["0.1", "0.2", "0.25", "0.3", "0.4", "0.5", "1"]:
+                    if name == "arange" and bi % 4:
+                        continue
+                    args = [a, b, st]
+                    strs = ws_variants("(", args, ")", prefix=name)[:(3 if bi % 10 == 0 else 1)]
+                    for s in strs:
+                        cases.append({"kind": "range", "args": args, "input": s})
     return cases
 
 
@@ -95,6 +112,8 @@ def intended(case):
         return None
     if k == "linspace":
         n = int(a[2]) if len(a) == 3 else 50
+        if n == 1:
+            return [a[0]]
         return [a[0] + (a[1] - a[0]) * F(i, n - 1) for i in range(n)]
     if k == "range":
         if len(a) == 1:
